@@ -70,6 +70,8 @@ def run(tier, seed, deep, hints):
         findings.append({"what": f"{case['kind']} cap={case['cap']} b={case['b']} swaps={case['swaps']} auto={case['auto']}: {bad}", "case": case, "signature": sig})
 
     for _ in range(n_script):
+        if core.search_expired():
+            break
         case = gen_case(rng, tiny=True)
         case.pop("seed", None)
         res, runs = all_scripts(case, check, alphabet=max(2, case["b"]), limit=120 if tier == "quick" else 3000)
@@ -81,6 +83,8 @@ def run(tier, seed, deep, hints):
             if len(findings) >= 3:
                 break
     for _ in range(n_seeded):
+        if core.search_expired():
+            break
         if len(findings) >= 3:
             break
         case = gen_case(rng, tiny=rng.random() < 0.4)
